@@ -18,7 +18,10 @@ CORPUS_V = ['1.2.900719925474100', '1.2.', 'foo', '1.2.3.4.5.6' * 0 + '1.', '', 
 # (text, expected offset of the rejected component, expected kind prefix): the component is not at the end of the string
 ACCEPTED = ['900719925474099.900719925474099.900719925474099', '0.0.0', '1.2.3-900719925474100', '1.2.3-' + 'a' * 250]      # the numeric bound itself and a string of exactly MAX_LENGTH bytes are accepted; identifiers are not bounded
 NUMBER_CASES = [('900719925474100.1.1', 0, 'MaxIntError(900719925474100)'), ('1.900719925474100.1', 2, 'MaxIntError(900719925474100)'), ('1.2.900719925474100-rc.1', 4, 'MaxIntError(900719925474100)'),
-                ('1.2.99999999999999999999+build', 4, 'ParseIntError'), ('v 12.99999999999999999999.3', 5, 'ParseIntError'), ('99999999999999999999.0.0', 0, 'ParseIntError')]
+                ('1.2.99999999999999999999+build', 4, 'ParseIntError'), ('v 12.99999999999999999999.3', 5, 'ParseIntError'), ('99999999999999999999.0.0', 0, 'ParseIntError'),
+                # the two sides of 2^64 (seed C17-i: a hand-written digit fold that overflows for exactly ..616 to ..619)
+                ('1.2.18446744073709551616', 4, 'ParseIntError'), ('18446744073709551619.0.0', 0, 'ParseIntError'), ('1.18446744073709551617.0-rc', 2, 'ParseIntError'),
+                ('1.18446744073709551615.0', 2, 'MaxIntError(18446744073709551615)'), ('1.2.18446744073709551620', 4, 'ParseIntError')]
 CORPUS_R = ['foo', '', '>=1.2.3 <1.0.0', 'é', '~1.y', '>', '1.2.900719925474100', '^1.2.99999999999999999999999', 'foo || bar', '1' * 300]
 
 
